@@ -53,7 +53,7 @@ LEVEL_TEXT = (
     "snippet of /repo and on generated programs (correspondence), and on the same inputs the property is checked on the real code: "
     "Parser tree of output vs input (context-free phase of Execer.parse, so bare subprocess lines have trees), format(format(s)) == format(s), "
     "comment texts, untokenisable input => FormatError and `xonsh format FILE` (default / --check / --diff) never rewrites it. The unchanged "
-    "code violates the property in the 19 ways listed under C17 in known_findings.json (each keyed by its mechanism and recognised only by its own classifier)."
+    "code violates the property in the 21 ways listed under C17 in known_findings.json (each keyed by its mechanism and recognised only by its own classifier)."
 )
 LEVEL_NOTE = (
     "Trusted: Lean kernel + standard axioms; translator/c17.py; the harness (generators, tree comparison, classifiers). Not modelled: the "
@@ -112,7 +112,8 @@ class Impl:
         try:
             self.tokens(src)
             return True, None
-        except (self.tkz.TokenError, IndentationError) as e:
+        except (self.tkz.TokenError, IndentationError, SyntaxError) as e:
+            # (SyntaxError: detect_encoding on an invalid coding cookie)
             return False, f"{type(e).__name__}: {e}"
 
     def format(self, src):
@@ -337,6 +338,8 @@ def flip_class(f):
     r = f["rule"]
     if r == "rawCont":
         return "macro-continuation"
+    if f["cur"] in ("\\\n", "\\\r\n") and f["gap"] == "":
+        return "continuation"  # a blank forced between a word and the backslash-newline that continues it
     if f["fstr"]:
         if r in ("opener", "closer") and f["prev"] == f["cur"] and f["prev"] in ("{", "}"):
             return "fstring-brace"
@@ -499,7 +502,9 @@ class Judge:
             res["status"] = "rejected"
             count("untokenisable")
             if f[0] != "FormatError":
-                fail("reject", WHY_REJECT, {"tokenizer": tokerr, "format_source": f})
+                # known: an invalid coding cookie makes detect_encoding raise SyntaxError, which _iter_tokens does not convert
+                key = "invalid-coding-cookie-escapes-as-syntaxerror" if (f[0] == "crash" and f[1].startswith("SyntaxError") and "encoding" in f[1] and "encoding" in str(tokerr)) else None
+                fail("reject", WHY_REJECT, {"tokenizer": tokerr, "format_source": f}, key)
             return res
         if f[0] != "ok":
             res["status"] = "raised"
@@ -523,6 +528,13 @@ class Judge:
         ctxt = {"src": src, "out": out, "m_ok": m_ok, "m": m, "names": names, "pieces": None}
         # idempotence
         f2 = impl.format(out)
+        if not meaning:
+            # deliberately damaged text that still tokenises is no program: what the second pass does to it is counted, not judged
+            if f2[0] not in ("ok", "FormatError"):
+                fail("accept", WHY_ACCEPT, {"second_pass": f2})
+            elif f2 != ("ok", out):
+                count("damaged-text-second-pass-differs (observed, not judged)")
+            return res
         if f2[0] != "ok":
             for key in self.key_refmt(ctxt, f2):
                 fail("refmt", WHY_REFMT, {"second_pass": f2, "first_pass_tail": out[-120:]}, key)
@@ -533,8 +545,6 @@ class Judge:
         if co is not None and ci != co:
             fail("comments", WHY_COMMENT, {"in": ci[:8], "out": co[:8]}, None)
         # meaning
-        if not meaning:
-            return res
         pi = impl.parse(src, keep=True, names=names)
         if pi[0] == "none":
             count("input-is-not-a-program")
@@ -629,12 +639,14 @@ class Judge:
         * a form feed (xonsh's parser reads what follows a form-feed line differently);
         * a backslash-continuation line that begins, in column 0, with `$(` `$[` `![` `!(`: a physical line beginning like that
           switches the tokenizer to subprocess-comment mode for the rest of the text; the formatter re-indents the line, so its
-          second pass (and the parser reading its output) tokenise the rest differently."""
+          second pass (and the parser reading its output) tokenise the rest differently;
+        * CR-LF line ends: NEWLINE / NL tokens are emitted as "\\n", also inside a macro body, whose raw text changes."""
         if not f.get("m_ok"):
             return None  # like every other classifier: only when the faithful model predicts the implementation's output
         for key, variant in (("comment-not-led-by-a-blank", lambda t: comment_lead_variant(self.impl, t)),
                              ("form-feed-changes-how-the-parser-reads-the-input", lambda t: t.replace("\f", "") if "\f" in t else None),
-                             ("subproc-comment-mode-trigger-moved-by-reindent", trigger_variant)):
+                             ("subproc-comment-mode-trigger-moved-by-reindent", trigger_variant),
+                             ("crlf-inside-raw-text-becomes-lf", lambda t: t.replace("\r\n", "\n") if "\r\n" in t else None)):
             s2 = variant(f["src"])
             if s2 is None:
                 continue
@@ -980,7 +992,10 @@ def _work(task):
             if task.get("cli"):
                 probs = cli_check(J.impl, task["src"], os.path.join(J.impl.home, "cli"))
                 for p in probs:
-                    r["failures"].append({"kind": "cli", "why": WHY_CLI, "observed": p, "key": None, "src": task["src"]})
+                    # (the same known finding seen through the CLI: the SyntaxError is not caught by cli.main either; the file is
+                    #  left alone but the run dies instead of reporting the file and exiting 123)
+                    key = "invalid-coding-cookie-escapes-as-syntaxerror" if ("SyntaxError" in str(p.get("rc")) and "encoding" in str(p.get("rc")) and "rewritten" not in p["problem"]) else None
+                    r["failures"].append({"kind": "cli", "why": WHY_CLI, "observed": p, "key": key, "src": task["src"]})
                 r["counts"]["cli-checked"] = 1
         r.pop("_trees", None)
         out.update(r)
@@ -989,6 +1004,10 @@ def _work(task):
         out.update({"status": "skipped-cpu-limit", "counts": {}, "failures": [], "disagree": None})
     except common.InfraError as e:
         out.update({"status": "infra", "error": str(e)[:300], "counts": {}, "failures": [], "disagree": None})
+    except Exception:  # noqa: BLE001 — an exception nobody anticipated: infrastructure, never a verdict
+        import traceback
+
+        out.update({"status": "infra", "error": "worker crashed on " + repr(task["src"][:200]) + ":\n" + traceback.format_exc()[-1500:], "counts": {}, "failures": [], "disagree": None})
     return out
 
 
@@ -1167,7 +1186,7 @@ DIRECTED = [
 ]
 
 MALFORMED = [
-    '"""', "'''abc", 'x = """a\nb', "x = (1,\n", "y = [\n", "z = {", 'f"{', "s = f'''a{x}\n", 'f"}"', "f'{x'", 'f"{x:{"', "if x:\n    y = 1\n  z = 2\n", "  x = 1\n y = 2\n", "x = 1 \\", "x = 1 \\\n",
+    "# -*- coding: nonsense -*-\nx = 1\n", '"""', "'''abc", 'x = """a\nb', "x = (1,\n", "y = [\n", "z = {", 'f"{', "s = f'''a{x}\n", 'f"}"', "f'{x'", 'f"{x:{"', "if x:\n    y = 1\n  z = 2\n", "  x = 1\n y = 2\n", "x = 1 \\", "x = 1 \\\n",
     "def f(:\n", "x = 'abc\n", 'x = "abc\n', "if x:\n\ty = 1\n        z = 2\n   w = 3\n", "x = (\n'''\n", "\x00", "x = 1\x00\n", "x = $(\n", "x = ![\n", "echo $(ls\n", "f'''{'''", 'f"{x}',
 ]
 
@@ -1192,8 +1211,9 @@ def stream_malformed(ctx, n):
         f"{len(MALFORMED)} hand-written untokenisable inputs and generated programs damaged at random (unterminated strings / f-strings / brackets, "
         "broken dedents, stray characters, EOF after a backslash, deleted spans): the real tokenizer decides whether the input can be tokenised; "
         "if not, format_source must raise FormatError and `xonsh format FILE` (default, --check, --diff; scratch dir) must exit 123 and leave the "
-        "bytes alone; if it still tokenises: correspondence with the model, second pass, comment texts and the CLI path (the parse oracle is not "
-        "applied to damaged text: it is not a program); non-trivial = the input is untokenisable",
+        "bytes alone; if it still tokenises: correspondence with the model, the CLI path, and the second pass must not crash (whether it changes "
+        "such text again is counted, not judged, and the parse oracle is not applied: damaged text is not a program); non-trivial = the input "
+        "is untokenisable",
     )
     tasks = [{"stream": name, "id": f"h{i}", "src": s, "cli": True, "cpu": 30} for i, s in enumerate(MALFORMED)]
     for i in range(n):
@@ -1484,6 +1504,7 @@ class Gen:
         self.cont_rate = rng.choice([0.0, 0.0, 0.03, 0.08])
         self.blank_ws = r < 0.3
         self.in_block_macro = 0
+        self.flat = 0  # > 0 inside macro bodies: no bracketed literal spread over lines, no comment (is it raw text or a comment?)
         self.last_kind = "py"
 
     # ------------------------------------------------------------------ atoms
@@ -1595,7 +1616,7 @@ class Gen:
     def commas(self, items, multiline=False):
         if not items:
             return ""
-        if multiline:
+        if multiline and not self.flat:
             self.features.add("bracket-multiline")
             pad = self.ch(["    ", "  ", "\t", "        ", ""])
             out = "\n"
@@ -1656,6 +1677,13 @@ class Gen:
         return s
 
     def macro_raw(self, in_call=False):
+        self.flat += 1
+        try:
+            return self._macro_raw(in_call)
+        finally:
+            self.flat -= 1
+
+    def _macro_raw(self, in_call=False):
         """raw macro text: every blank in it is part of the program.  Canned snippets, subprocess words, whole expressions
         (so that strings over several lines, f-strings, brackets, captured subprocesses occur inside the raw region) or a
         literal followed by more text"""
@@ -1953,6 +1981,8 @@ def damage(rng, src):
         return src.rstrip("\n") + " \\\n"
     if r < 0.8:
         i = rng.randrange(len(src))
+        while i and src[i - 1] == "\\":
+            i -= 1
         # (a stray backslash or carriage return in the middle of a line is left out: the text stays "accepted", is no program,
         #  and the formatter is not idempotent on it in ways that were observed but not keyed — see the report)
         return src[:i] + rng.choice(["$", "?", "!", "`", "\x00", "}", "{", "'", '"', "\t", "\f", "\v"]) + src[i:]
